@@ -84,6 +84,42 @@ type Op struct {
 	// Oversize (publish): 1-based position of a message in the batch whose value is replaced by one byte more than a
 	// record can hold; the Publish must fail and leave a log that is still a log
 	Oversize int `json:"oversize,omitempty"`
+	// Wipe (backup): empty and re-create the directory of the previous backup and back up into it again ("backup
+	// rotation": the same path, an empty directory)
+	Wipe bool `json:"wipe,omitempty"`
+	// Cold (reopen): segment files moved to another directory and linked back while the log is closed
+	Cold []string `json:"cold,omitempty"`
+	// FailAt (Multi variants of delete/trim/compact): the back-off fails at its FailAt-th call (1-based); odd values
+	// fail with an own error, even values cancel the context and return its error
+	FailAt int `json:"fail_at,omitempty"`
+	// Nanos (trim by age, compactions): nanoseconds below the microsecond added to the time bound
+	Nanos int `json:"nanos,omitempty"`
+}
+
+var errInjectedBackoff = errors.New("injected back-off failure")
+
+// backoffFor returns the context and back-off of a Multi call: never failing, or failing at the FailAt-th call.
+func backoffFor(failAt int) (context.Context, klevdb.DeleteMultiBackoff, func()) {
+	ctx, cancel := context.WithCancel(context.Background())
+	if failAt <= 0 {
+		return ctx, noBackoff, cancel
+	}
+	calls := 0
+	return ctx, func(c context.Context) error {
+		calls++
+		if calls < failAt {
+			return nil
+		}
+		if failAt%2 == 0 {
+			cancel()
+			return c.Err()
+		}
+		return errInjectedBackoff
+	}, cancel
+}
+
+func injected(err error) bool {
+	return errors.Is(err, errInjectedBackoff) || errors.Is(err, context.Canceled)
 }
 
 var hugeOnce sync.Once
@@ -182,8 +218,11 @@ type Env struct {
 
 	startOpts OpenOpts
 	bkDir     string // reusable backup directory ("" = none)
+	bkLast    string // directory of the most recent backup, whatever happened since
 	bkOld     []oldBackup
 	bkSeq     int
+	coldSeq   int
+	rep       map[int64]uint8 // how a missing key/value of each offset was first handed out (nil or empty)
 	flags     map[string]bool
 	closed    bool
 	segsMax   int
@@ -194,6 +233,24 @@ type Env struct {
 func (e *Env) own(tag string) bool { return e.P.Own[tag] }
 
 // openPath is the directory as it is spelled in Open calls; e.Dir stays the clean path for inspection.
+// dirName: the name of the log directory. Styles 4.. use names with characters that mean something to glob patterns,
+// shells or path cleaning; the log directory is the caller's choice.
+func dirName(style int) string {
+	switch style {
+	case 4:
+		return "orders[0]"
+	case 5:
+		return "l*g?"
+	case 6:
+		return `a\b`
+	case 7:
+		return "sp ace {x},y"
+	case 8:
+		return "..log"
+	}
+	return "log"
+}
+
 func (e *Env) openPath() string {
 	switch e.Cfg.DirStyle {
 	case 1:
@@ -225,7 +282,7 @@ func (e *Env) flag(name string) {
 
 func NewEnv(p *Profile, cfg HConfig, open OpenOpts, st *Stats) *Env {
 	root := MkScratch("vf-hist-")
-	e := &Env{P: p, Cfg: cfg, Root: root, Dir: filepath.Join(root, "log"), Opts: open, startOpts: open, M: NewModel(), St: st, flags: map[string]bool{}}
+	e := &Env{P: p, Cfg: cfg, Root: root, Dir: filepath.Join(root, dirName(cfg.DirStyle)), Opts: open, startOpts: open, M: NewModel(), St: st, flags: map[string]bool{}, rep: map[int64]uint8{}}
 	if cfg.RelTime {
 		e.T0 = time.Now().UnixMicro()
 	}
@@ -484,7 +541,8 @@ func dirDataSize(dir string) int64 {
 	var sz int64
 	for _, en := range es {
 		if strings.HasSuffix(en.Name(), ".log") || strings.HasSuffix(en.Name(), ".index") {
-			if i, err := en.Info(); err == nil {
+			// the file's size, also when the directory entry is a link to it
+			if i, err := os.Stat(filepath.Join(dir, en.Name())); err == nil {
 				sz += i.Size()
 			}
 		}
@@ -559,8 +617,13 @@ func (e *Env) applyDeleted(tag string, del []klevdb.Message, req map[int64]struc
 	}
 }
 
-func (e *Env) callDelete(variant int, set map[int64]struct{}) ([]klevdb.Message, int64, error) {
-	ctx := context.Background()
+func (e *Env) callDelete(variant int, set map[int64]struct{}, failAt ...int) ([]klevdb.Message, int64, error) {
+	fa := 0
+	if len(failAt) > 0 {
+		fa = failAt[0]
+	}
+	ctx, noBackoff, cancel := backoffFor(fa)
+	defer cancel()
 	switch variant {
 	case 1:
 		return klevdb.DeleteMulti(ctx, e.L, set, noBackoff)
@@ -603,8 +666,26 @@ func (e *Env) applyDelete(op Op) {
 			relative = true
 		}
 	}
-	del, dsz, err := e.callDelete(op.Variant, set)
+	del, dsz, err := e.callDelete(op.Variant, set, op.FailAt)
 	tag := "delete"
+	if err != nil && op.FailAt > 0 && injected(err) {
+		// the back-off failed: the call reports what it deleted so far together with the error; the report must be
+		// complete (everything else is still there: the scans of the next observation hold the log to the model)
+		e.flag("multi-interrupted")
+		e.St.Inc("multi_calls_interrupted_by_backoff")
+		e.applyDeleted(tag, del, set)
+		if len(del) > 0 {
+			e.flag("deleted")
+			if del[len(del)-1].Offset == pre.Next-1 || (len(pre.Live) > 0 && len(e.M.Live) == 0) {
+				e.flag("taildel")
+			}
+			if len(e.M.Live) == 0 {
+				e.flag("emptied")
+			}
+		}
+		e.scanCheck(e.L, tag, "after an interrupted DeleteMulti")
+		return
+	}
 	if err != nil {
 		if !errors.Is(err, klevdb.ErrNotFound) && !errors.Is(err, klevdb.ErrInvalidOffset) {
 			e.failf("err", "Delete(%v) failed: %v", op.Offsets, err)
@@ -853,6 +934,27 @@ func (e *Env) applyReopen(op Op) {
 		if err := os.Remove(filepath.Join(e.Dir, n)); err == nil {
 			e.flag("rmidx")
 			e.St.Inc("index_files_removed")
+		}
+	}
+	if len(op.Cold) > 0 {
+		// "cold storage": the file lives elsewhere, the directory entry is a symbolic link to it
+		cold := filepath.Join(e.Root, "cold")
+		_ = os.MkdirAll(cold, 0700)
+		for _, n := range op.Cold {
+			src := filepath.Join(e.Dir, n)
+			if fi, err := os.Lstat(src); err != nil || !fi.Mode().IsRegular() {
+				continue
+			}
+			e.coldSeq++
+			dst := filepath.Join(cold, fmt.Sprintf("%d-%s", e.coldSeq, n))
+			if err := os.Rename(src, dst); err != nil {
+				panic(err)
+			}
+			if err := os.Symlink(dst, src); err != nil {
+				panic(err)
+			}
+			e.flag("cold-link")
+			e.St.Inc("segment_files_replaced_by_symlinks")
 		}
 	}
 	mixedBefore := e.mixedVersions()
@@ -1116,7 +1218,14 @@ func (e *Env) applyBackup(op Op) {
 	// destination: a fresh directory, or the previous one if only publishes happened since
 	dst := e.bkDir
 	reuse := dst != "" && !op.Fresh
-	if !reuse {
+	if op.Wipe && e.bkLast != "" && op.Variant != 2 {
+		// backup rotation: the same path as last time, emptied
+		dst, reuse = e.bkLast, false
+		_ = os.RemoveAll(dst)
+		_ = os.MkdirAll(dst, 0700)
+		e.flag("backup-wiped-same-path")
+		e.St.Inc("backup_into_wiped_previous_directory")
+	} else if !reuse {
 		e.bkSeq++
 		dst = filepath.Join(e.Root, fmt.Sprintf("backup%d", e.bkSeq))
 		if op.Variant == 0 || e.missingIndexFiles() {
@@ -1195,6 +1304,7 @@ func (e *Env) applyBackup(op Op) {
 	}
 	// opening the backup read-write may have touched it (index rebuild is derived data only); it stays reusable
 	e.bkDir = dst
+	e.bkLast = dst
 	if e.own("backup") {
 		e.recheckBackups(dst)
 		kept := e.bkOld[:0]
@@ -1262,6 +1372,7 @@ func (e *Env) applyBackupRO(op Op) {
 	ro.Check, ro.Recover = false, false
 	e.openLog(ro)
 	e.bkDir = dst
+	e.bkLast = dst
 	if e.own("backup") {
 		e.recheckBackups(dst)
 		kept := e.bkOld[:0]
